@@ -388,12 +388,14 @@ class LabelBase(INET):
         Index uses prefix only (without labels) for uniqueness.
         """
         addpath: Buffer
+        # one marker octet first: 'no-pi' or 'disabled' followed by the mask and prefix could spell the
+        # same bytes as a 4 octet path identifier followed by another mask and prefix
         if self.path_info is PathInfo.NOPATH:
-            addpath = b'no-pi'
+            addpath = b'\x00no-pi'
         elif self.path_info is PathInfo.DISABLED:
-            addpath = b'disabled'
+            addpath = b'\x01disabled'
         else:
-            addpath = self.path_info.pack_path()
+            addpath = b'\x02' + bytes(self.path_info.pack_path())
         mask = bytes([self.cidr.mask])
         return Family.index(self) + bytes(addpath) + mask + self.cidr.pack_ip()
 
